@@ -47,6 +47,11 @@ type Entry struct {
 	// header says, so the sample carries the status received and net code 0 like for any other answer.
 	LocKind  string `json:"location_kind,omitempty"`
 	Location string `json:"location,omitempty"`
+	// TagRel: how Tag is related to the auto-tag A the case's uri-elements derive from this entry's URI ("" = not at all:
+	// words that hold no '/'): equals (Tag == A) | contains (A is a substring of Tag: ammo tagged by its path, by
+	// method:path, by uri?query, a word glued to A) | within (Tag is a proper substring of A) | prefix (Tag and A start alike
+	// and then differ). Tags are opaque: with no-tag-only off the sample reads "<Tag>|<A>" whatever the two look like.
+	TagRel string `json:"tag_relation,omitempty"`
 }
 
 // redirectStatuses are the statuses an HTTP client that follows redirects would act on.
@@ -300,7 +305,40 @@ func genHTTP(t *rapid.T) HTTPCase {
 		}
 	}
 	c.RedirectOff = rapid.Bool().Draw(t, "redirectFalseWritten")
+	// one entry in three (of those with a path) is tagged by something derived from its own URI, as ammo generated from
+	// access logs is (tag = path, method:path, the handler's prefix): the tag equals / contains / lies within / starts
+	// like the auto-tag that this case's uri-elements derive from the same URI
+	for i := range c.Entries {
+		if c.Entries[i].NoPath != "" || rapid.IntRange(0, 2).Draw(t, "tagRelated") != 0 {
+			continue
+		}
+		genRelatedTag(t, &c, i)
+	}
 	return c
+}
+
+// genRelatedTag tags entry i by a text related to its auto-tag (see Entry.TagRel).
+func genRelatedTag(t *rapid.T, c *HTTPCase, i int) {
+	e := &c.Entries[i]
+	u := e.uri(i)
+	a := autoTag(u, c.Elements)
+	e.TagRel = rapid.SampledFrom([]string{"equals", "contains", "contains", "contains", "within", "within", "prefix"}).Draw(t, "tagRelation")
+	switch e.TagRel {
+	case "equals":
+		e.Tag = a
+	case "contains":
+		e.Tag = rapid.SampledFrom([]string{u, u + "?id=1", "GET:" + u, "n" + a, a + "_v2", a + "/", "tag " + a, a + " x", a + a}).Draw(t, "tagContaining")
+		if e.Tag == a { // (the whole path is the auto-tag when it has no more elements than uri-elements)
+			e.TagRel = "equals"
+		}
+	case "within":
+		e.Tag = rapid.SampledFrom([]string{a[1:], a[:len(a)-1], fmt.Sprintf("e%d", i), a[2:]}).Draw(t, "tagWithin")
+	case "prefix":
+		e.Tag = a[:len(a)-1] + "-" + rapid.StringMatching(`[a-z0-9]{1,3}`).Draw(t, "tagDiverges")
+	}
+	if (e.TagRel == "within" || e.TagRel == "prefix") && strings.Contains(e.Tag, a) || e.TagRel != "equals" && e.Tag == a {
+		panic(fmt.Sprintf("harness: tag %q drawn as %q of auto-tag %q", e.Tag, e.TagRel, a))
+	}
 }
 
 func entryHost(i int) string { return fmt.Sprintf("e%d.c10.example", i) }
@@ -675,6 +713,20 @@ func checkHTTP(c HTTPCase, o *vf.Obs) error {
 			mark(true, "tag_of_several_words_"+c.Format)
 			mark(strings.Contains(e.Tag, "\t") || strings.Contains(e.Tag, "  "), "tag_with_tab_or_run_of_spaces")
 			mark(c.AutoTag && !c.NoTagOnly, "tag_of_several_words_with_auto_tag_appended")
+		}
+		// tags related to the entry's own URI (entries that were shot, whatever became of the request)
+		if e.TagRel != "" {
+			mark(true, "tag_related_to_uri")
+			if c.AutoTag && !c.NoTagOnly {
+				mark(true, "auto_tag_appended_to_related_tag")
+				mark(true, "auto_tag_appended_to_tag_"+e.TagRel)
+				mark(e.TagRel == "equals" || e.TagRel == "contains", "auto_tag_appended_to_tag_that_holds_it")
+				mark(e.TagRel == "equals" || e.TagRel == "contains", "auto_tag_appended_to_tag_that_holds_it_gun_"+c.gunName())
+				mark(e.TagRel == "contains" && total > len(c.Entries), "auto_tag_appended_to_tag_contains_reshot")
+			} else {
+				mark(c.AutoTag, "related_tag_alone_no_tag_only")
+				mark(!c.AutoTag, "related_tag_alone_auto_tag_off")
+			}
 		}
 		if c.Refused {
 			continue
